@@ -312,6 +312,52 @@ impl<'ast> Visit<'ast> for Cells {
   }
 }
 
+/// the two public entry points of `impl Linter` (src/linter.rs): every call made in the body, in source order, and the
+/// argument expressions handed to `lint_inner`
+struct Entry {
+  cur: Option<String>,
+  calls: Vec<(String, Vec<String>)>,
+  inner_args: Vec<(String, Vec<String>)>,
+}
+impl<'ast> Visit<'ast> for Entry {
+  fn visit_impl_item_fn(&mut self, n: &'ast syn::ImplItemFn) {
+    let name = n.sig.ident.to_string();
+    if name == "lint_file" || name == "lint_with_ast" {
+      self.cur = Some(name.clone());
+      self.calls.push((name, vec![]));
+      syn::visit::visit_impl_item_fn(self, n);
+      self.cur = None;
+    }
+  }
+  fn visit_expr_call(&mut self, n: &'ast syn::ExprCall) {
+    use syn::__private::ToTokens;
+    if self.cur.is_some() {
+      let f: String = n.func.to_token_stream().to_string().split_whitespace().collect();
+      self.calls.last_mut().unwrap().1.push(f);
+    }
+    syn::visit::visit_expr_call(self, n);
+  }
+  fn visit_expr_method_call(&mut self, n: &'ast syn::ExprMethodCall) {
+    use syn::__private::ToTokens;
+    if let Some(cur) = self.cur.clone() {
+      let recv: String = n.receiver.to_token_stream().to_string().split_whitespace().collect();
+      self.calls.last_mut().unwrap().1.push(format!("{}.{}", recv, n.method));
+      if n.method == "lint_inner" {
+        let args = n.args.iter().map(|a| a.to_token_stream().to_string().split_whitespace().collect::<String>()).collect();
+        self.inner_args.push((cur, args));
+      }
+    }
+    syn::visit::visit_expr_method_call(self, n);
+  }
+  fn visit_macro(&mut self, n: &'ast syn::Macro) {
+    // a macro in an entry point hides code from this reader: recorded, so that the table theorem fails closed
+    if self.cur.is_some() {
+      let name = n.path.segments.last().map(|s| s.ident.to_string()).unwrap_or_default();
+      self.calls.last_mut().unwrap().1.push(format!("{}!", name));
+    }
+  }
+}
+
 fn write_if_changed(path: &str, content: &str) {
   if std::fs::read_to_string(path).ok().as_deref() != Some(content) {
     std::fs::write(path, content).unwrap();
@@ -326,6 +372,7 @@ fn main() {
   let mut v = Impls { file: String::new(), rows: vec![], stops: vec![], cur_fn: vec![] };
   let mut ctx_rows: Vec<(String, Vec<String>)> = vec![];
   let mut statics = Statics { file: String::new(), rows: vec![] };
+  let mut entry = Entry { cur: None, calls: vec![], inner_args: vec![] };
   let mut cells = Cells { file: String::new(), site: vec![], rows: vec![] };
   for p in &files {
     let src = std::fs::read_to_string(p).unwrap();
@@ -334,6 +381,9 @@ fn main() {
     v.visit_file(&f);
     statics.file = v.file.clone();
     statics.visit_file(&f);
+    if v.file == "src/linter.rs" {
+      entry.visit_file(&f);
+    }
     cells.file = v.file.clone();
     cells.visit_file(&f);
     if v.file.starts_with("src/rules/") {
@@ -362,6 +412,16 @@ fn main() {
     t.push_str(&rows.join(",\n"));
     t.push_str("\n]\n\nend DL.Gen\n");
     write_if_changed(&format!("{}/Cells.lean", out), &t);
+  }
+  {
+    let mut t = String::from("/-! GENERATED by harness/src/bin/translate2.rs (syn): the public entry points `Linter::lint_file` / `Linter::lint_with_ast`\n(src/linter.rs): every call in the body in source order (macros as `name!`), and the arguments handed to `lint_inner`. -/\nnamespace DL.Gen\n\ndef entryCalls : List (String × List String) := [\n");
+    let rows: Vec<String> = entry.calls.iter().map(|(a, b)| format!("  ({}, [{}])", lean_str(a), b.iter().map(|x| lean_str(x)).collect::<Vec<_>>().join(", "))).collect();
+    t.push_str(&rows.join(",\n"));
+    t.push_str("\n]\n\ndef lintInnerArgs : List (String × List String) := [\n");
+    let rows: Vec<String> = entry.inner_args.iter().map(|(a, b)| format!("  ({}, [{}])", lean_str(a), b.iter().map(|x| lean_str(x)).collect::<Vec<_>>().join(", "))).collect();
+    t.push_str(&rows.join(",\n"));
+    t.push_str("\n]\n\nend DL.Gen\n");
+    write_if_changed(&format!("{}/EntryPoints.lean", out), &t);
   }
   let mut s = String::from("/-! GENERATED by harness/src/bin/translate2.rs (syn): every `visit_*` override of every `impl Visit for` in src/, with\nwhether each path through it recurses into the node's children (`always`), some traversal call exists (`sometimes`), or none (`never`). -/\nnamespace DL.Gen\n\n/-- (file, visitor type, method, class) for the overrides that do **not** always recurse -/\ndef visitNotAlways : List (String × String × String × String) := [\n");
   let rows: Vec<String> = v.rows.iter().filter(|r| r.3 != "always").map(|(a, b, c, d)| format!("  ({}, {}, {}, {})", lean_str(a), lean_str(b), lean_str(c), lean_str(d))).collect();
